@@ -5,7 +5,7 @@ import ctypes
 import numpy as np
 
 from common import to_words
-from lib import Buf
+from lib import Buf, ro
 
 U64 = (1 << 64) - 1
 
@@ -112,7 +112,8 @@ def product(qc, kind, impl, x_lanes, y_lanes, off=0, pre=None):
         else:
             Y.u64[:] = np.array(y_lanes, dtype=np.uint64).reshape(-1)
     x0, y0 = X.snapshot(), Y.snapshot()
-    L.fn(fname, "v puppp")(pre if pre is not None else qc.prod_pre(base), ell, R.addr, X.addr, Y.addr)
+    with ro(X, Y):
+        L.fn(fname, "v puppp")(pre if pre is not None else qc.prod_pre(base), ell, R.addr, X.addr, Y.addr)
     if not (X.canaries_ok() and Y.canaries_ok() and R.canaries_ok() and np.array_equal(X.u8, x0) and np.array_equal(Y.u8, y0)):
         return None
     return [[int(v) for v in R.u64[4 * i:4 * i + 4]] for i in range(nres)]
